@@ -71,7 +71,7 @@ def gen_case(rng):
     meta = rng.choice([None, {}, {"schema": "v1", "merges": [{"nodes": ["a", "b"]}], "splits": [], "promotions": [], "concept_nodes_count": 2},
                        {"merges": "bad", "concept_nodes_count": "x", "last_update": "t"}, {"edges_count": 99, "last_update": None}])
     return {"bounds": [lo, hi], "weights": weights, "edges": edges, "edges_as": edges_as, "nodes": nodes, "nodes_as": nodes_as, "meta": meta,
-            "agent": rng.choice(["A", "Ambrose", "agent-7", "Ünï", "a.b"]), "turn": rng.choice([0, 1, 7, "3", "x"]), "version": rng.choice(["1", "7", "v-x", "0"]),
+            "agent": rng.choice(["A", "Ambrose", "agent-7", "Ünï", "a.b"]), "turn": rng.choice([0, 1, 7, "3", "x"]), "version": rng.choice(["1", "7", "v-x", "0", "007", "00421337", "1_000", "+5", " 9", "٣"]),
             "has_store": rng.random() < 0.85, "graph_key": rng.choice(["graph", "graph", "gel"]), "ndeltas": rng.randint(0, 3),
             # an older snapshot of another agent in the same directory: [file-name stem, seconds older]
             # the same agent / version written once before with ANOTHER state (a re-snapshot without a version bump)
